@@ -21,6 +21,188 @@ def const(text, name, path):
     return int(m.group(1).replace("_", ""))
 
 
+# ---- C11: tables of the lex escape scanner (lrlex/src/lib/parser.rs, regex-syntax) -----------------
+POSIX_CLASSES = {"xdigit": [(48, 57), (65, 70), (97, 102)], "digit": [(48, 57)]}
+
+
+def regex_static(text, name, path):
+    """the pattern string of `static NAME: LazyLock<Regex> = LazyLock::new(|| { Regex::new(r"...") ..`"""
+    m = re.search(r'static\s+%s\s*:\s*LazyLock<Regex>\s*=\s*LazyLock::new\(\|\|\s*\{?\s*Regex::new\(r(#?)"(.*?)"\1\)' % re.escape(name), text, re.S)
+    if not m:
+        raise SystemExit(f"extract: regex {name} not found in {path}")
+    return m.group(2)
+
+
+def parse_class(body, name):
+    """items of a bracket class (without the brackets) -> list of inclusive code point ranges"""
+    out, i = [], 0
+    while i < len(body):
+        if body.startswith("[:", i):
+            j = body.index(":]", i)
+            cls = body[i + 2:j]
+            if cls not in POSIX_CLASSES:
+                raise SystemExit(f"extract: {name}: unsupported POSIX class {cls}")
+            out += POSIX_CLASSES[cls]
+            i = j + 2
+            continue
+        if body[i] == "\\":
+            c = body[i + 1]
+            if c.isalnum():
+                raise SystemExit(f"extract: {name}: unsupported escape \\{c} in class")
+            i += 2
+        else:
+            c = body[i]
+            i += 1
+        if i + 1 < len(body) and body[i] == "-" and body[i + 1] != "]":
+            hi = body[i + 1]
+            out.append((ord(c), ord(hi)))
+            i += 2
+        else:
+            out.append((ord(c), ord(c)))
+    return out
+
+
+def parse_esc_literal(pat, name):
+    """`^(alt|alt|..)`, every alt a sequence of bracket classes (optionally parenthesised)
+    -> list of alternatives, each a list of classes, each a list of ranges"""
+    if not (pat.startswith("^(") and pat.endswith(")")):
+        raise SystemExit(f"extract: {name} no longer has the shape ^(..|..)")
+    body = pat[2:-1]
+    alts, depth, cur, i, inclass = [], 0, "", 0, False
+    while i < len(body):
+        ch = body[i]
+        if ch == "\\":
+            cur += body[i:i + 2]; i += 2; continue
+        if inclass:
+            if body.startswith("[:", i):
+                j = body.index(":]", i); cur += body[i:j + 2]; i = j + 2; continue
+            if ch == "]":
+                inclass = False
+        elif ch == "[":
+            inclass = True
+        elif ch == "(":
+            depth += 1
+        elif ch == ")":
+            depth -= 1
+        elif ch == "|" and depth == 0:
+            alts.append(cur); cur = ""; i += 1; continue
+        cur += ch; i += 1
+    alts.append(cur)
+    res = []
+    for a in alts:
+        while a.startswith("(") and a.endswith(")"):
+            a = a[1:-1]
+        seq, i = [], 0
+        while i < len(a):
+            if a[i] != "[":
+                raise SystemExit(f"extract: {name}: alternative {a!r} is not a sequence of classes")
+            j, k = i + 1, i + 1
+            while True:
+                if a.startswith("[:", k):
+                    k = a.index(":]", k) + 2
+                elif a[k] == "\\":
+                    k += 2
+                elif a[k] == "]":
+                    break
+                else:
+                    k += 1
+            seq.append(parse_class(a[j:k], name))
+            i = k + 1
+        res.append(seq)
+    return res
+
+
+def rust_str(lit):
+    """value of a (non-raw) Rust string literal body with only \\\\ \\" \\n \\t escapes"""
+    out, i = "", 0
+    while i < len(lit):
+        if lit[i] == "\\":
+            c = lit[i + 1]
+            out += {"\\": "\\", '"': '"', "n": "\n", "t": "\t"}.get(c) or (_ for _ in ()).throw(SystemExit(f"extract: escape \\{c}"))
+            i += 2
+        else:
+            out += lit[i]; i += 1
+    return out
+
+
+def regex_syntax_src():
+    """src/lib.rs of the regex-syntax version that Cargo.lock pins"""
+    import glob
+    lock = None
+    for cand in (os.path.join(REPO, "Cargo.lock"), os.path.join(VERIF, "harness", "Cargo.lock"), "/repo/Cargo.lock"):
+        if os.path.exists(cand):
+            lock = open(cand).read(); break
+    if lock is None:
+        raise SystemExit("extract: no Cargo.lock to find the regex-syntax version")
+    m = re.search(r'name = "regex-syntax"\nversion = "([^"]+)"', lock)
+    if not m:
+        raise SystemExit("extract: regex-syntax not in Cargo.lock")
+    home = os.environ.get("CARGO_HOME", os.path.expanduser("~/.cargo"))
+    hits = glob.glob(os.path.join(home, "registry", "src", "*", "regex-syntax-" + m.group(1), "src", "lib.rs"))
+    if not hits:
+        raise SystemExit(f"extract: regex-syntax-{m.group(1)} sources not found under {home}")
+    return open(hits[0], encoding="utf-8").read(), m.group(1)
+
+
+def lean_str(s):
+    return '"' + s.replace("\\", "\\\\").replace('"', '\\"') + '"'
+
+
+def c11(out):
+    lp = src("lrlex/src/lib/parser.rs")
+    esc = regex_static(lp, "RE_LEX_ESC_LITERAL", "parser.rs")
+    alts = parse_esc_literal(esc, "RE_LEX_ESC_LITERAL")
+    out.append("/-- `RE_LEX_ESC_LITERAL` of lrlex/src/lib/parser.rs (anchored at the start of the text): alternatives,")
+    out.append("each a sequence of character classes, each a list of inclusive code-point ranges -/")
+    out.append("def RE_LEX_ESC_LITERAL : List (List (List (Nat × Nat))) := [" + ", ".join(
+        "[" + ", ".join("[" + ", ".join(f"({a}, {b})" for a, b in cls) + "]" for cls in seq) + "]" for seq in alts) + "]")
+    out.append(f"def RE_LEX_ESC_LITERAL_SRC : String := {lean_str(esc)}")
+    rs, ver = regex_syntax_src()
+    m = re.search(r"pub fn is_meta_character\(c: char\) -> bool \{\s*match c \{(.*?)=> true,\s*_ => false,", rs, re.S)
+    if not m:
+        raise SystemExit("extract: regex_syntax::is_meta_character no longer has the expected shape")
+    metas = re.findall(r"'(\\.|[^'\\])'", m.group(1))
+    if not metas or re.sub(r"'(\\.|[^'\\])'|[\s|]", "", m.group(1)):
+        raise SystemExit("extract: unexpected pattern in is_meta_character")
+    cps = [ord(x[1]) if x.startswith("\\") else ord(x) for x in metas]
+    out.append(f"/-- `regex_syntax::is_meta_character` (regex-syntax {ver}, the version pinned by Cargo.lock) -/")
+    out.append("def META_CHARACTERS : List Nat := [" + ", ".join(map(str, cps)) + "]")
+    m = re.search(r'if c == \'b\' \{.*?if let Some\(true\) = lex_flags\.posix_escapes \{\s*"((?:[^"\\]|\\.)*)"\s*\}\s*else\s*\{\s*"((?:[^"\\]|\\.)*)"', lp, re.S)
+    if not m:
+        raise SystemExit("extract: the `\\b` arm of unescape no longer has the expected shape")
+    out.append("/-- what the `b` arm of `unescape` pushes with / without `posix_escapes` -/")
+    out.append("def B_POSIX : List Nat := [" + ", ".join(str(ord(c)) for c in rust_str(m.group(1))) + "]")
+    out.append("def B_PLAIN : List Nat := [" + ", ".join(str(ord(c)) for c in rust_str(m.group(2))) + "]")
+    for n in ("RE_START_STATE_NAME", "RE_INCLUSIVE_START_STATE_DECLARATION", "RE_EXCLUSIVE_START_STATE_DECLARATION",
+              "RE_LINE_SEP", "RE_SPACE_SEP", "RE_WS"):
+        out.append(f"def {n}_SRC : String := {lean_str(regex_static(lp, n, 'parser.rs'))}")
+    m = re.search(r'const INITIAL_START_STATE_NAME: &str = "([^"]*)";', lp)
+    if not m:
+        raise SystemExit("extract: INITIAL_START_STATE_NAME not found")
+    out.append(f"def INITIAL_START_STATE_NAME : String := {lean_str(m.group(1))}")
+    lx = src("lrlex/src/lib/lexer.rs")
+    m = re.search(r"pub struct LexFlags \{(.*?)\n\}", lx, re.S)
+    if not m:
+        raise SystemExit("extract: struct LexFlags not found")
+    fields = re.findall(r"pub (\w+): Option<(\w+)>", m.group(1))
+    bools = [f for f, t in fields if t == "bool"]
+    out.append("/-- the boolean fields of `LexFlags`, in declaration order -/")
+    out.append("def LEX_FLAG_NAMES : List String := [" + ", ".join(lean_str(f) for f in bools) + "]")
+    m = re.search(r"pub const DEFAULT_LEX_FLAGS: LexFlags = LexFlags \{(.*?)\};", lx, re.S)
+    if not m:
+        raise SystemExit("extract: DEFAULT_LEX_FLAGS not found")
+    dv = dict(re.findall(r"(\w+): (Some\(\w+\)|None)", m.group(1)))
+    vals = []
+    for f in bools:
+        v = dv.get(f)
+        if v not in ("Some(true)", "Some(false)", "None"):
+            raise SystemExit(f"extract: DEFAULT_LEX_FLAGS.{f} = {v}")
+        vals.append({"Some(true)": "some true", "Some(false)": "some false", "None": "none"}[v])
+    out.append("/-- `DEFAULT_LEX_FLAGS`, boolean fields, same order -/")
+    out.append("def DEFAULT_LEX_FLAGS : List (Option Bool) := [" + ", ".join(vals) + "]")
+    out.append("")
+
+
 def main():
     out = ["/-! GENERATED by tools/extract.py from /repo on every run. Do not edit. -/", "namespace GrmVerif.Extracted", ""]
     cp = src("lrpar/src/lib/cpctplus.rs")
@@ -29,7 +211,9 @@ def main():
     st = src("lrtable/src/lib/statetable.rs")
     for n in ("SHIFT", "REDUCE", "ACCEPT", "ERROR"):
         out.append(f"def {n} : Nat := {const(st, n, 'statetable.rs')}")
-    out += ["", "end GrmVerif.Extracted", ""]
+    out.append("")
+    c11(out)
+    out += ["end GrmVerif.Extracted", ""]
     new = "\n".join(out)
     old = open(OUT).read() if os.path.exists(OUT) else None
     if old != new:
